@@ -40,6 +40,26 @@ _AST_CACHE = {}
 FUNCS_SEEN = {}  # qualname -> (file, sha1 of source)  -- evidence: functions encoded
 
 
+_GEN_CACHE = {}
+
+
+def _is_generator(node):
+    """Does this function body yield (nested defs / lambdas not counted)?"""
+    k = id(node)
+    if k not in _GEN_CACHE:
+        found = False
+        stack = list(ast.iter_child_nodes(node))
+        while stack and not found:
+            n = stack.pop()
+            if isinstance(n, (ast.FunctionDef, ast.AsyncFunctionDef, ast.Lambda, ast.ClassDef)):
+                continue
+            if isinstance(n, (ast.Yield, ast.YieldFrom)):
+                found = True
+            stack.extend(ast.iter_child_nodes(n))
+        _GEN_CACHE[k] = found
+    return _GEN_CACHE[k]
+
+
 def func_ast(fn):
     code = fn.__code__
     key = (code.co_filename, code.co_firstlineno, code.co_name)
@@ -111,6 +131,41 @@ class Closure:
 
     def __repr__(self):
         return f"<closure {self.__name__}>"
+
+
+class SymSet(list):
+    """A set with symbolic members: list-backed, membership / insertion decided by the solver."""
+
+    __symex_native__ = True
+
+    def __init__(self, interp):
+        super().__init__()
+        self.interp = interp
+
+    def _has(self, v):
+        it = self.interp
+        return it.truth(it.models.sym_in(it, v, list(self)))
+
+    def add(self, v):
+        if not self._has(v):
+            self.append(v)
+
+    def discard(self, v):
+        it = self.interp
+        for i, x in enumerate(list(self)):
+            if it.truth(it.models.sym_eq(it, v, x)):
+                del self[i]
+                return
+
+    def remove(self, v):
+        n = len(self)
+        self.discard(v)
+        if len(self) == n:
+            raise prog(KeyError(v))
+
+    def update(self, other):
+        for v in other:
+            self.add(v)
 
 
 class Coro:
@@ -187,6 +242,7 @@ class Interp:
         self.stubs = {}  # id(callable) -> (callable, stub(interp, args, kwargs))
         self.type_stubs = []  # (class, stub) matched with isinstance on bound-method receivers
         self.on_stmt = None  # scheduler hook (C16)
+        self.yields = []  # stacks of values yielded by the generator functions being evaluated
         self.calls = 0
         self.depth = 0
         from . import models
@@ -292,15 +348,22 @@ class Interp:
         self.depth += 1
         if self.depth > 200:
             raise Unsupported("interpreter recursion depth > 200")
+        gen = _is_generator(node)
+        if gen:
+            self.yields.append([])
         try:
             if isinstance(node, ast.Lambda):
                 return self.eval(node.body, frame)
             self.exec_block(node.body, frame)
         except _Return as r:
+            if gen:
+                return iter(self.yields[-1])
             return r.value
         finally:
             self.depth -= 1
-        return None
+            if gen:
+                out = self.yields.pop()
+        return iter(out) if gen else None
 
     def bind(self, qualname, a, defaults, kwdefaults, args, kwargs):
         try:
@@ -696,7 +759,10 @@ class Interp:
     def e_Set(self, e, f):
         vals = self._elts(e.elts, f)
         if any(contains_sym(v) for v in vals):
-            raise Unsupported("set literal with symbolic members")
+            out = SymSet(self)
+            for v in vals:
+                out.add(v)
+            return out
         return set(vals)
 
     def _elts(self, elts, f):
@@ -717,6 +783,18 @@ class Interp:
             else:
                 self.models.dict_store(self, d, self.eval(k, f), self.eval(v, f))
         return d
+
+    def e_Yield(self, e, f):
+        if not self.yields:
+            raise Unsupported("yield outside an eagerly evaluated generator function")
+        self.yields[-1].append(self.eval(e.value, f) if e.value is not None else None)
+        return None
+
+    def e_YieldFrom(self, e, f):
+        if not self.yields:
+            raise Unsupported("yield from outside an eagerly evaluated generator function")
+        self.yields[-1].extend(self.iterate(self.eval(e.value, f)))
+        return None
 
     def e_Lambda(self, e, f):
         return self.make_closure(e, f, "<lambda>")
@@ -977,6 +1055,10 @@ class Interp:
             hi = self.eval(e.slice.upper, f) if e.slice.upper else None
             if e.slice.step is not None:
                 st = self.eval(e.slice.step, f)
+                if st == -1 and lo is None and hi is None and isinstance(obj, (SStr, SBytes)):
+                    if isinstance(obj, SStr):
+                        return SStr(tuple(reversed(strs.expand(self.p, obj).cs)))
+                    return SBytes(list(reversed(self.models.bytes_atoms(self, obj))))
                 if is_sym(obj) or is_sym(lo) or is_sym(hi) or is_sym(st):
                     raise Unsupported("extended slice on symbolic data")
                 return self.nat(lambda: obj[lo:hi:st])
